@@ -255,10 +255,14 @@ def design_level(v, pid, tier):
     if pid in MC_INV:
         cfg = 'MC_Solver_quick.cfg' if tier == 'quick' else 'MC_Solver.cfg'
         add_mc(v, mc_cached('MC_Solver', cfg), f'Solver.tla state machine, all schedules (new solver / run / continue / reset / rerun) over exact instances; invariants {MC_INV[pid]}')
+        w = mc_cached('MC_Solver', 'MC_Solver_witness.cfg')
+        add_mc(v, w, 'reachability witness (vacuity guard): a held self-locking chain re-simulated by a second Solver after reset must be reachable', expect_violation='Witness_DeepRerun')
+        if w['violated'] != 'Witness_DeepRerun':
+            raise Machinery('vacuity guard: MC_Solver does not reach reset + rerun on a second Solver of a held self-locking chain')
         if pid == 'C16':
             add_mc(v, mc_cached('MC_Solver', 'MC_Solver_stop.cfg'), 'Solver.tla with stop conditions (sensors x operators x thresholds): invariant C16_FirstHit')
     if pid == 'C13':
-        add_mc(v, mc_cached('LockAbs', 'LockAbs.cfg', workers=4), 'LockAbs.tla: sign abstraction of the lock machine, finite and exhaustive = all real parameter values; SafeSign, HeldStill, HeldPos, ResumeOnlyWhenDriven, NeverClampedWithoutSL')
+        add_mc(v, mc_cached('LockAbs', 'LockAbs.cfg', workers=4, coverage=True), need_actions=('First', 'Later', 'Fresh'), label='LockAbs.tla: sign abstraction of the lock machine, finite and exhaustive = all real parameter values; SafeSign, HeldStill, HeldPos, ResumeOnlyWhenDriven, NeverClampedWithoutSL')
     if pid in ('C14', 'C15'):
         add_mc(v, mc_cached('MC_Control', 'MC_Control.cfg', workers=1), 'Control.tla lemmas: arbitration over 9^3 proposal triples, inclusive timer window, StartLimitCurrent root => current law = limit')
 
